@@ -45,7 +45,8 @@ def parseScript (fx : Fixes) (cmdtmo : Int) (spec : String) : Option Script :=
         | 'v' :: r => (String.ofList r).toInt?.map fun v => { sc with rv := v }
         | 'w' :: r => (parseWait (String.ofList r)).map fun w => { sc with rv := execDestroy fx w }
         | 'd' :: _ => some sc
-        | 't' :: r => some { sc with timedOut := String.ofList r ≠ "0" && cmdtmo > 0 }
+        | 'e' :: _ => some sc     -- bytes a timed-out chatty command writes after the signal: never read
+        | 't' :: r => some { sc with timedOut := String.ofList r ≠ "0" && cmdtmo > 0, viaLoopTop := String.ofList r = "2" }
         | _ => none
 
 /-- a target whose thread was canceled before it started (^C ^Z): field `x1`; state DSH_CANCELED, rc 0 -/
